@@ -14,3 +14,4 @@ import HH.WasmB
 import HH.PortablePanic
 import HH.Dispatch
 import HH.Machine
+import HH.IntrinEval
